@@ -60,20 +60,22 @@ AllDefined(Q) == \A r \in T : Defined(Q.metric, r.vec, Q.q)
    vector search through a scalar-index pre-filter).
    A rejected answer is attributed to the deviation when a purged row can be among the k nearest
    index entries and what was returned is otherwise sound.                                        *)
-PurgedExplains(Q, indexUsed, r) ==
+PurgedExplains(Q, indexUsed, r, refine) ==
   \* a pre-filter computed by scanning only allows live rows; one answered by a scalar index (which has the
   \* same stale entries) also allows the purged rows that pass it
   LET P == IF Q.hasFilter /\ Q.prefilter THEN (IF scalar THEN {p \in purged \cup purgedS : Passes(p, Q)} ELSE {}) ELSE purged
       post == Q.hasFilter /\ ~Q.prefilter
       base == IF post THEN Candidates(T, Q, hasIndex) ELSE Eligible(T, Q, hasIndex)
-      S == {[key |-> x.key, vec |-> x.vec] : x \in base} \cup {[key |-> x.key, vec |-> x.vec] : x \in P}
+      \* the competition takes place inside the index: its live entries, the purged ones, k * refine slots
+      S == {[key |-> x.key, vec |-> x.vec] : x \in {y \in base : y.indexed}} \cup {[key |-> x.key, vec |-> x.vec] : x \in P}
+      Qi == [Q EXCEPT !.k = Q.k * (IF refine > 1 THEN refine ELSE 1)]
       R == r.rows
       sound == /\ Cardinality(RKeys(R)) = Len(R) /\ Len(R) <= Q.k
                /\ \A i \in 1..Len(R) : /\ R[i][1] \in Keys(Eligible(T, Q, hasIndex))
                                         /\ Abs(R[i][2] - Dist(Q.metric, RowOf(T, R[i][1]).vec, Q.q)) <= Tol(Q.metric)
                /\ \A i \in 1..(Len(R) - 1) : R[i][2] <= R[i + 1][2]
   IN /\ stable /\ indexUsed /\ P # {}
-     /\ \E p \in P : Cardinality(S) <= Q.k \/ Dist(Q.metric, p.vec, Q.q) <= KthDist(S, Q)
+     /\ \E p \in P : Cardinality(S) <= Qi.k \/ Dist(Q.metric, p.vec, Q.q) <= KthDist(S, Qi)
      /\ (r.res # "ok" \/ sound)
 
 \* judgement of one variant result: set of violated clauses
@@ -84,7 +86,7 @@ JudgeResult(st, r) ==
            ELSE IF ~AllDefined(Q) THEN {}
            ELSE Judge(T, ever, Q, hasIndex, r.rows)
   IN IF v # {} /\ v \subseteq {"QueryFailed", "WrongCount", "NotNearest", "PostFilterLostRow"} /\ AllDefined(Q)
-        /\ PurgedExplains(Q, indexUsed, r)
+        /\ PurgedExplains(Q, indexUsed, r, r.variant.refine)
      THEN {"PurgedRowsStayInIndex"} ELSE v
 
 \* observations about answers of modes that do not claim exactness (reported, not judged)
